@@ -11,9 +11,11 @@
    about `assert_matches1 cfg ctx` and become closed statements about the model of the whole library by one
    application to the C01/C02 lemmas.
      * "the body does not run and the call raises"  holds for ALL calls CPython can bind (C03_args_guard),
-     * "what is raised is PedanticTypeCheckException" is FALSE in three regions where another exception
-       escapes first (`*_refuted`, reproduced on the real code as KNOWN-FINDINGs) and proved outside
-       them (`C03_args_guard_exact_partial`).
+     * "what is raised is PedanticTypeCheckException" is FALSE in five regions where another exception
+       escapes first - IndexError (self by keyword, '@staticmethod' in the text) or PedanticCallWithArgsException
+       (a variadic parameter not spelled "star args", receiver not called self, '@pedantic' in the text of a class method) - and a value yielded in answer to
+       throw() is not checked at all (`*_refuted`, each reproduced on the real code as a KNOWN-FINDING); proved
+       outside them (`C03_args_guard_exact_partial`, `C03_generator_results_guard_partial`).
    `run` is the model of coq/Model/Pedantic.v, tied to the source by translator/t_pedantic.py
    (Gen/Pedantic.v: `C03_cfg_good`; AST locks of the hand-modelled functions: obligation locks:hand-modelled-functions of bin/check) and the correspondence of bin/check C03.   *)
 From Coq Require Import List Arith Bool String ZArith Lia.
